@@ -105,6 +105,7 @@ impl Check for C06 {
             allow_breaks: rng.chance(1, 5),
             max_blocks: 1 + rng.usize_below(5),
             high_origin: rng.chance(1, 8),
+            tail_beyond_user: false,
         };
         let program = gen::generate(&mut rng, &opts);
         // Storage faults: which re-headed images to try (origin word, number of HALT words)
